@@ -12,9 +12,9 @@ func init() {
 	register(&propertyDef{
 		id:    "C19",
 		title: "invalid input starts nothing; steps see the schema-normalised input",
-		rules: []ruleFunc{c19R1, c19R2, c19R3},
+		rules: []ruleFunc{c19R1, c19R2, c19R3, c19R4},
 		decided: "in Execute every step start, every go statement and the construction of the run state are dominated by the success edges of input.Unserialize and input.Serialize (R1); the value stored under the data model's `input` key is Serialize(Unserialize(caller's input)) and nothing else writes that key (R2); " +
-			"the engine entry point passes the decoded document unchanged to Execute and returns before it on a decode error (R3).",
+			"the engine entry point passes the decoded document unchanged to Execute and returns before it on a decode error (R3). Shared: the loop step does not write into the item list it received from the data model (R4 = C13.R4).",
 		notDecided: "what normalisation does (pluginsdk); what each step observes (needs runs).",
 	})
 }
@@ -220,7 +220,7 @@ func c19R2(c *Ctx) {
 // C19.R3 the engine entry point passes the decoded document unchanged.
 func c19R3(c *Ctx) {
 	const rule = "C19.R3"
-	c.explain("C19.R3 engineWorkflow.Run calls Execute with decodedInput.Raw() of the YAML-decoded input, on the err==nil edge of the decode")
+	c.explain("C19.R3 engineWorkflow.Run calls Execute with decodedInput.Raw() of the YAML-decoded input — on every path, with no substitute document — on the err==nil edge of the decode")
 	fn := c.Fn("(engine.engineWorkflow).Run")
 	if fn == nil {
 		return
@@ -253,6 +253,11 @@ func c19R3(c *Ctx) {
 				return true
 			}
 			return false
+		})
+		// ... and from nothing else: on every path the argument is that Raw() result
+		fromRaw = fromRaw && allSources(cc.Args[1], func(x ssa.Value) bool {
+			c2, ok := x.(*ssa.Call)
+			return ok && c2.Common().IsInvoke() && c2.Common().Method.Name() == "Raw"
 		})
 		guarded := parse != nil && guardedBy(call, false, errTestOf(parse)) != nil
 		parsesParam := false
